@@ -32,7 +32,7 @@ BASE = dict(
     var=6, const=1, apply=10, ite=4, fop=0, eqcheck=2, quant=3, let=3,
     cube=2, find_or_add=2, drop=6, dup=2, traverse=0,
     gc=3, swap=3, reorder=1, pairs=1, configure=0, knobs=0, arm=0,
-    finalize=0, arm_final=0)
+    finalize=0, arm_final=0, redo=3, probe=2)
 
 
 def _w(**kw):
@@ -195,13 +195,39 @@ def gen_arm_final(w, r, cfg):
     return dict(op='arm_final', k=r.choice([1, 1, 2, 3, 5, 8, 13, 21]))
 
 
+def gen_probe(w, r, cfg):
+    want = cfg.get('probe_second') or ['apply']
+    k = r.choice(want)
+    if k == 'quant':
+        second = dict(k='quant', vars=r.randrange(1, 1 << w.nv), forall=r.randrange(2))
+    elif k == 'let':
+        second = dict(k='let', pairs=[[_ri(r, w.nv), r.randrange(2)] for _ in range(r.randint(1, 2))])
+    else:
+        second = dict(k='apply')
+    return dict(op='probe', a=_ri(r), b=_ri(r), c=_ri(r), sym1=r.choice(ops.ALL_BINARY_SYMS),
+                sym2=r.choice(ops.ALL_BINARY_SYMS), rooted=r.randrange(2), second=second,
+                keep_first=int(r.random() < 0.6),
+                tries=[[r.choice(ops.ALL_BINARY_SYMS), _ri(r), _ri(r)] for _ in range(4)])
+
+
+def gen_redo(w, r, cfg):
+    """Re-issue an earlier computation (same operand slots): after a
+    collection or a swap in between, a remembered answer would be stale."""
+    h = getattr(w, 'history', None)
+    if not h:
+        return gen_apply(w, r, cfg)
+    ins = dict(h[-1 - min(int(r.random() ** 2 * len(h)), len(h) - 1)])
+    ins['keep'] = r.random() < 0.3
+    return ins
+
+
 GEN = dict(
     var=gen_var, const=gen_const, apply=gen_apply, ite=gen_ite, fop=gen_fop,
     eqcheck=gen_eqcheck, quant=gen_quant, let=gen_let, cube=gen_cube,
     find_or_add=gen_find_or_add, drop=gen_drop, dup=gen_dup,
     traverse=gen_traverse, gc=gen_gc, swap=gen_swap, reorder=gen_reorder,
     pairs=gen_pairs, configure=gen_configure, knobs=gen_knobs, arm=gen_arm,
-    finalize=gen_finalize, arm_final=gen_arm_final)
+    finalize=gen_finalize, arm_final=gen_arm_final, redo=gen_redo, probe=gen_probe)
 
 
 def register(name, fn):
